@@ -1,9 +1,43 @@
 //! Kani proof harnesses over the real peppi code (path dependency on /repo).
 //! Every harness is preceded by a `// @verif` block that tools/check.py parses.
-#![allow(dead_code, unused_imports, unused_variables, unused_mut, clippy::all)]
+#![allow(non_snake_case, dead_code, unused_imports, unused_variables, unused_mut, clippy::all)]
 
-#[cfg(any(kani, test))]
+#[cfg(kani)]
 mod util;
 
-#[cfg(any(kani, test))]
+#[cfg(kani)]
 mod c20;
+#[cfg(kani)]
+mod c10;
+#[cfg(kani)]
+mod c04p;
+#[cfg(kani)]
+mod c01;
+#[cfg(kani)]
+mod c07;
+#[cfg(kani)]
+mod gen_c01;
+#[cfg(kani)]
+mod c08;
+#[cfg(kani)]
+mod c06;
+#[cfg(kani)]
+mod steps;
+#[cfg(kani)]
+mod gen_c04;
+#[cfg(kani)]
+mod gen_c05;
+#[cfg(kani)]
+mod gen_c13;
+#[cfg(kani)]
+mod c11;
+#[cfg(kani)]
+mod c15;
+#[cfg(kani)]
+mod c19;
+#[cfg(kani)]
+mod c09;
+#[cfg(kani)]
+mod gen_c03;
+#[cfg(kani)]
+mod probe;
